@@ -84,6 +84,12 @@ def run(ctx):
     if not quick:
         sc3 = {k + "|d3": {"script": k, "cfg": {}, "dev": ("drop", "delay")} for k in ("pings", "hs_only")}
         netcheck.explore_scenarios(ctx, "c12", sc3, 3, "d3", sig_extra=sig_extra)
+    # larger round-trip times: the pacing interval grows with the RTT and must never hold back an ACK
+    lat = {}
+    for la in (0.1, 0.2):
+        for s_ in ("bidir_long", "pingpong", "small_sparse"):
+            lat["%s|lat%s" % (s_, la)] = {"script": s_, "cfg": {"latency": la}, "dev": ("drop", "delay", "late")}
+    netcheck.explore_scenarios(ctx, "c12", lat, 1 if quick else 2, "large_rtt", sig_extra=sig_extra)
     if len(agg["outcomes"]) < 3:
         raise core.HarnessError("vacuous exploration")
     from checks import c12_gaps
